@@ -244,6 +244,21 @@ func c19Measure(args []string) error {
 			emit(o)
 		}
 	}
+	if len(args) == 0 {
+		// cell counts just above a power of two (and one just below): the octree of V1 is sized to the next power of
+		// two, the grid of V2 to the count itself
+		sp, _ := sdf.Sphere3D(1.3)
+		sh := dcShape{name: "sphere-near-pow2", kind: "exact", s: sp, vol: 4.0 / 3 * math.Pi * 1.3 * 1.3 * 1.3, param: "1.3"}
+		ns := []int{15, 17, 33, 34}
+		if tier() == "thorough" {
+			ns = []int{15, 17, 31, 33, 34, 63, 65, 68}
+		}
+		for _, n := range ns {
+			for _, r := range []string{"dc1", "dc2"} {
+				emit(dcMeasure(sh, r, n, v3.Vec{X: 0.2, Y: -0.3, Z: 0.1}))
+			}
+		}
+	}
 	for rep := 0; rep < reps; rep++ {
 		shapes := dcShapes(rnd)
 		if rep == 0 {
